@@ -90,6 +90,8 @@ class SampleAlgebra(ToSympy):
             return sp.Function("F_" + a[0].name)(self.conv(a[1]))
         if t.op == "py_ceil":
             return CEIL(self.conv(a[0]))
+        if t.op == "py_int" and isinstance(a[0], Op) and a[0].op in ("py_ceil", "py_floor", "py_round", "py_int"):
+            return self.conv(a[0])  # int() of an integer-valued count is that count
         if t.op in ("py_floor", "py_int", "py_round"):
             return FLOOR(self.conv(a[0])) if t.op != "py_round" else sp.Function("ROUND")(self.conv(a[0]))
         if t.op == "quantile":
